@@ -9,7 +9,22 @@ Pats == {<<a, b, d>> : a \in {0, 1}, b \in {0, 1}, d \in {0, 1}}
 CodecCases == [kind : {"enc"}, g : Geoms(L, LG) \cup Wide(WideN, WideB), bo : {0, 1}]
               \cup {[kind |-> "dec", bytes |-> EncPat(x, p, 0, 0), valid |-> TRUE, want |-> x] : x \in Geoms(L, LG), p \in Pats}
               \cup {[kind |-> "dec", bytes |-> EncPat(x, p, 0, 0), valid |-> TRUE, want |-> x] : x \in Wide(WideN, WideB), p \in {<<0, 0, 0>>, <<1, 1, 0>>}}
-GenInit == IF Mode = "codec"
+(* members of a foreign type: a complete, decodable geometry of another type where a multi-geometry requires a Point /
+   LineString / Polygon.  The reference decoder rejects every one of them (so must the code: an error, not a nil geometry) *)
+ForeignMember == {G("Point", PtK(1)), G("LineString", PathK(0, 2)), G("LineString", <<PtK(3), PtK(3)>>), G("Polygon", PathsK(1, <<0, 0>>)),
+                  G("Polygon", PathsK(1, <<2>>)), G("MultiPoint", PathK(1, 1)), G("GeometryCollection", <<>>)}
+MemberType(t) == CASE t = "MultiPoint" -> "Point" [] t = "MultiLineString" -> "LineString" [] t = "MultiPolygon" -> "Polygon"
+ForeignBytes(t, m, bo, good) ==
+    LET ok == CASE t = "MultiPoint" -> G("Point", PtK(2)) [] t = "MultiLineString" -> G("LineString", PathK(2, 2)) [] t = "MultiPolygon" -> G("Polygon", PathsK(2, <<1>>))
+        ms == IF good = 0 THEN <<m>> ELSE IF good = 1 THEN <<ok, m>> ELSE <<m, ok>>
+    IN <<bo>> \o U32(TypeCode(t), bo) \o U32(Len(ms), bo) \o FlattenSeq([i \in DOMAIN ms |-> EncBytes(ms[i], bo)])
+ForeignCases == LET bs == {ForeignBytes(t, m, bo, good) : t \in {"MultiPoint", "MultiLineString", "MultiPolygon"},
+                                                       m \in {x \in ForeignMember : TRUE}, bo \in {0, 1}, good \in {0, 1, 2}}
+                    bad == {b \in bs : ~DecBytes(b).ok}
+                IN {[kind |-> "dec", bytes |-> b, valid |-> FALSE] : b \in bad}
+                   \cup {[kind |-> "dec", bytes |-> <<0>> \o U32(7, 0) \o U32(2, 0) \o b \o EncBytes(G("Point", PtK(4)), 0), valid |-> FALSE] : b \in bad}
+GenInit == IF Mode = "foreign" THEN c \in ForeignCases /\ PrintT(ToJson(c)) /\ Init
+           ELSE IF Mode = "codec"
            THEN c \in CodecCases /\ PrintT(ToJson(c)) /\ Init
            ELSE c = 0 /\ Init
 GenNext == Mode = "hostile" /\ Next /\ UNCHANGED c
